@@ -66,7 +66,10 @@ def run_iteration_typestate(ctx: Ctx, f: FuncInfo, head: Node, is_map: bool):
                 ev(ai, n, "the map concurrency slot is released inside the loop outside the cancellation path", st)
         if n.op == "exit" and in_iter and not canc:
             ev(ai, n, "the spawner leaves its loop early without having been cancelled (remaining invocations lost)", st)
-        if n.op == "raise_exit" and in_iter and uexc:
+        if n.op == "raise_exit" and in_iter and uexc == "value":
+            ev(ai, n, "an exception raised by an operation on a user-supplied value (iterating it, calling a method of it) inside an iteration escapes "
+                      "the spawner (remaining invocations lost)", st)
+        elif n.op == "raise_exit" and in_iter and uexc:
             ev(ai, n, "an exception raised by the user's function at call time escapes the spawner (remaining invocations lost)", st)
 
     def transfer(ai: AbsInt, n: Node, lab: Label, st):
@@ -84,6 +87,10 @@ def run_iteration_typestate(ctx: Ctx, f: FuncInfo, head: Node, is_map: bool):
             uok = normal
             if lab[0] == "x":
                 uexc = True
+        elif n is not head and n.user and lab[0] == "x" and lab[1] is not None and lab[1][0] == EXCEPTION and not uexc and (
+                n.op == "comp" or n.op == "iter" or (n.op == "call" and n.callee is not None and n.callee.kind == "unknown")):
+            # an operation on a value the user handed in (not the call that creates the coroutine)
+            uexc = "value"
         if n.op == "handler" and uexc:
             # the exception of the user call was caught by this handler
             if any(ctx.hier.is_sub(EXCEPTION, t) for t in n.types):
